@@ -10,6 +10,23 @@ import (
 	realsync "sync"
 )
 
+// Everything else of package sync is the real thing (a change of the runtime
+// may start using it; only Pool needs to be observable).
+type (
+	Map       = realsync.Map
+	Mutex     = realsync.Mutex
+	RWMutex   = realsync.RWMutex
+	Once      = realsync.Once
+	WaitGroup = realsync.WaitGroup
+	Cond      = realsync.Cond
+	Locker    = realsync.Locker
+)
+
+var (
+	NewCond  = realsync.NewCond
+	OnceFunc = realsync.OnceFunc
+)
+
 type Pool struct {
 	New   func() any
 	items []any
